@@ -1,18 +1,21 @@
 #!/bin/sh
-# maintainer helper: behaviour-preserving refactorings (from sub-agents) -- the
-# checks must stay silent.  usage: tools/try_refac.sh   (walks /tmp/wt4/C*_out/r*)
-ROOT=${1:-/tmp/wt4}
+# maintainer helper: behaviour-CHANGING but property-neutral patches (from
+# sub-agents) -- the checks must stay silent.
+# usage: tools/try_neutral.sh [ROOT]   (walks ROOT/C*_out/n*; ROOT defaults to /tmp/wt5)
+ROOT=${1:-/tmp/wt5}
 WT=$ROOT/verify
 [ -d "$WT" ] || git -C /repo worktree add -q --detach "$WT" HEAD
-for d in $ROOT/C*_out/r*; do
-  [ -f "$d/patch.diff" ] && [ -f "$d/check.py" ] && [ -f "$d/notes.md" ] || continue
+for d in $ROOT/C*_out/n*; do
+  [ -f "$d/patch.diff" ] && [ -f "$d/differs.py" ] && [ -f "$d/holds.py" ] && [ -f "$d/notes.md" ] || continue
   [ -f "$d/.tried" ] && continue
   p=$(basename $(dirname $d)); p=${p%%_out}
-  git -C "$WT" checkout -q -- . 
-  c0=$(cd "$WT" && PYTHONPATH="$WT" timeout 120 /venv/bin/python -W ignore "$d/check.py" >/dev/null 2>&1; echo $?)
+  git -C "$WT" checkout -q -- .
+  d0=$(cd "$WT" && PYTHONPATH="$WT" timeout 120 /venv/bin/python -W ignore "$d/differs.py" >/dev/null 2>&1; echo $?)
+  h0=$(cd "$WT" && PYTHONPATH="$WT" timeout 120 /venv/bin/python -W ignore "$d/holds.py" >/dev/null 2>&1; echo $?)
   if ! git -C "$WT" apply "$d/patch.diff" 2>/dev/null; then echo "$p/$(basename $d): PATCH DOES NOT APPLY"; echo x > $d/.tried; continue; fi
   suite=$(cd "$WT" && PYTHONPATH="$WT" /venv/bin/python -m pytest -q -p no:cacheprovider --timeout=900 test 2>&1 | tail -1 | cut -c1-30)
-  c1=$(cd "$WT" && PYTHONPATH="$WT" timeout 120 /venv/bin/python -W ignore "$d/check.py" >/dev/null 2>&1; echo $?)
+  d1=$(cd "$WT" && PYTHONPATH="$WT" timeout 120 /venv/bin/python -W ignore "$d/differs.py" >/dev/null 2>&1; echo $?)
+  h1=$(cd "$WT" && PYTHONPATH="$WT" timeout 120 /venv/bin/python -W ignore "$d/holds.py" >/dev/null 2>&1; echo $?)
   git -C "$WT" checkout -q -- .
   rm -rf $ROOT/scratch && mkdir -p $ROOT/scratch && cp -r /repo/pymbolic $ROOT/scratch/pymbolic && (cd $ROOT/scratch && patch -p1 -s < "$d/patch.diff")
   : > $d/.tried
@@ -22,5 +25,5 @@ for d in $ROOT/C*_out/r*; do
     if [ $rc -ne 0 ]; then res="$res $q=$rc"; echo "## $q rc=$rc" >> $d/.tried; echo "$out" | grep -A2 "VIOLATION\|ANALYSIS-ERROR" | grep -v "^--" | head -9 | cut -c1-300 >> $d/.tried; fi
   done
   rm -rf $ROOT/scratch
-  echo "$p/$(basename $d): clean=$c0 patched=$c1 suite[$suite] => ${res:-silent}"
+  echo "$p/$(basename $d): differs clean=$d0 patched=$d1; holds clean=$h0 patched=$h1; suite[$suite] => ${res:-silent}"
 done
